@@ -6,6 +6,7 @@ package fasthttp
 import (
 	"bytes"
 	"fmt"
+	"math/big"
 	"strings"
 
 	"pgregory.net/rapid"
@@ -108,6 +109,11 @@ func vpChunkEncode(t *rapid.T, body []byte, sabotage string) []byte {
 				size = "0x" + size
 			case "chunk-size-huge":
 				size = "1" + strings.Repeat("0", 16)
+			case "chunk-size-wrap64":
+				// 2^64 + n: a parser that accumulates into a machine word without counting digits sees n
+				size = fmt.Sprintf("1%016x", n)
+			case "chunk-size-wrap-long":
+				size = fmt.Sprintf("%s%031x", rapid.SampledFrom([]string{"7", "1", "f", "8"}).Draw(t, "wraplead"), n)
 			case "chunk-size-neg":
 				size = "-" + size
 			case "chunk-size-plus":
@@ -160,14 +166,14 @@ func vpChunkEncode(t *rapid.T, body []byte, sabotage string) []byte {
 }
 
 var vpChunkSabotages = []string{
-	"chunk-size-barelf", "chunk-ext-lf", "chunk-size-0x", "chunk-size-huge", "chunk-size-neg", "chunk-size-plus",
+	"chunk-size-barelf", "chunk-ext-lf", "chunk-size-0x", "chunk-size-huge", "chunk-size-wrap64", "chunk-size-wrap-long", "chunk-size-wrap64", "chunk-size-neg", "chunk-size-plus",
 	"chunk-data-nocrlf", "chunk-data-lf", "chunk-data-xx", "chunk-size-ws-ext", "chunk-size-trailing-ws",
 	"chunk-size-empty", "chunk-size-space-inside", "lastchunk-ext", "lastchunk-000", "trailer", "trailer-forbidden",
 	"trailer-nocolon", "trailer-barelf",
 }
 
 var vpFramingOps = []string{
-	"cl-dup-same", "cl-dup-diff", "cl-plus", "cl-minus", "cl-0x", "cl-list-same", "cl-list-diff", "cl-empty", "cl-huge",
+	"cl-wrap64", "cl-wrap63", "cl-dup-same", "cl-dup-diff", "cl-plus", "cl-minus", "cl-0x", "cl-list-same", "cl-list-diff", "cl-empty", "cl-huge",
 	"cl-inner-space", "cl-leading-zeros", "cl-trailing-ws", "cl-float",
 	"cl-te", "te-cl", "te-identity", "te-identity-cl", "te-case", "te-gzip-chunked", "te-chunked-gzip", "te-chunked-chunked",
 	"te-xchunked", "te-param", "te-two-lines", "te-on-10", "te-empty", "te-tab",
@@ -325,7 +331,7 @@ func vpGenRequest(t *rapid.T, idx int, o vpGenOpts) vpGenReq {
 		default:
 			clMut := map[string]string{
 				"cl-plus": "+%d", "cl-minus": "-%d", "cl-0x": "0x%x", "cl-list-same": "%[1]d, %[1]d", "cl-list-diff": "%[1]d, 0",
-				"cl-empty": "", "cl-huge": "%d0000000000000000000", "cl-inner-space": "1 %d", "cl-leading-zeros": "000%d",
+				"cl-empty": "", "cl-huge": "%d0000000000000000000", "cl-wrap64": "WRAP64", "cl-wrap63": "WRAP63", "cl-inner-space": "1 %d", "cl-leading-zeros": "000%d",
 				"cl-trailing-ws": "%d \t", "cl-float": "%d.0",
 			}
 			teMut := map[string]string{
@@ -338,7 +344,11 @@ func vpGenRequest(t *rapid.T, idx int, o vpGenOpts) vpGenReq {
 					hdrs[te] = hdr{"Content-Length", ": ", "", "\r\n"}
 					cl, te = te, -1
 				}
-				if strings.Contains(f, "%") {
+				if f == "WRAP64" { // 2^64 + n in decimal: wraps to n in a 64-bit accumulator
+					hdrs[cl].value = new(big.Int).Add(new(big.Int).Lsh(big.NewInt(1), 64), big.NewInt(int64(n))).String()
+				} else if f == "WRAP63" {
+					hdrs[cl].value = new(big.Int).Add(new(big.Int).Lsh(big.NewInt(1), 63), big.NewInt(int64(n))).String()
+				} else if strings.Contains(f, "%") {
 					hdrs[cl].value = fmt.Sprintf(f, n)
 				} else {
 					hdrs[cl].value = f
